@@ -257,10 +257,17 @@ async fn round(
         let deadline = Instant::now() + REPLY_WAIT;
         let mut buf = vec![0u8; 65536];
         let desc = |s: &Sent| format!("client {} ({}) -> target {} ({}) payload {} bytes", s.client, clients[s.client].addr, s.target, w.udp_targets[s.target].addr, s.payload.len());
+        let mut all_since: Option<Instant> = None;
         loop {
             let all = expected.values().all(|v| *v);
+            if all && all_since.is_none() {
+                all_since = Some(Instant::now());
+            }
             // after everything arrived keep listening shortly for datagrams that should not come
-            let until = if all { Instant::now() + Duration::from_millis(40) } else { deadline };
+            let until = match all_since {
+                Some(t) => t + Duration::from_millis(40),
+                None => deadline,
+            };
             let mut got_any = false;
             for (ci, c) in clients.iter().enumerate() {
                 while let Ok((n, from)) = c.sock.try_recv_from(&mut buf) {
